@@ -73,23 +73,10 @@ Fixpoint steps (p : N) (ovf : bool) (g : config) (s : ost) (ops : list op) (xs :
   | _, _ => []
   end.
 
-(* the projection compared between implementation and model: for the closed-form properties the oracle's own
-   verdict per step (the theorem says the model's output satisfies the statement, so the two agree on the
-   projected slice exactly when the statement holds of the implementation's output); for the relational
-   properties a coarse view of the observation as well *)
-Definition coarse (p : N) (x : obs3) : N :=
-  match p with
-  | 10 => N.b2n (is_panic_obs (fst x))                                       (* panicked or not *)
-  | 9 | 1 => match fst x with
-             | XDecode (inl (mt, (off, len))) => 1000000 + msg_type_to_u8 mt * 1000 + N.of_nat off
-             | XDecode (inr _) => 1 | XPanic _ => 2 | XBad => 3 | _ => 0 end   (* accepted (type, offset) / rejected / panic *)
-  | 2 | 11 => match fst x with
-              | XProcess (inl (_, Some n)) _ => 10 + N.of_nat n
-              | XProcess (inl (_, None)) _ => 2 | XProcess (inr _) _ => 1
-              | XDecode (inl _) => 3 | XDecode (inr _) => 4 | XPanic _ => 5 | _ => 0 end
-  | 16 => match fst x with XEnc (Some n) _ => 10 + N.of_nat n | XEnc None _ => 1 | XPanic _ => 2 | _ => 0 end
-  | _ => 0
-  end.
+(* The projection compared between implementation and model is, for every property, the oracle's own verdict
+   per step: the theorem says the model's output satisfies the statement, so the implementation agrees with the
+   model on the slice the property constrains exactly when the statement holds of its output.  Differences outside
+   that slice are reported as whole-model fidelity (v_full, v_first_diff), never as a verdict. *)
 
 Definition summarise (full : bool) (fd : nat) (proj : bool) (l : list sv) : verdict :=
   {| v_full := full;
@@ -107,6 +94,6 @@ Definition judge (p : N) (ovf : bool) (g : config) (ops : list op) (impl : list 
   let fd := first_diff impl model 0 in
   let svs := steps p ovf g ost0 ops impl in
   let msvs := steps p ovf g ost0 ops model in
-  let proj := list_eqb (map (fun s => N.b2n (s_o s)) svs) (map (fun s => N.b2n (s_o s)) msvs)
-              && list_eqb (map (coarse p) impl) (map (coarse p) model) in
+  let goodb := fun s => N.b2n (s_o s || negb (s_kf s =? 0)) in
+  let proj := list_eqb (map goodb svs) (map goodb msvs) in
   summarise full fd proj svs.
